@@ -1,15 +1,46 @@
 import Ledger.Proofs.SqlRunAccounts
+import Ledger.Proofs.SqlTxStmts
 
 /-!
-C15bMeta — BOUNDED REGRESSION OBLIGATIONS for the transaction-metadata statements
-(`UpdateTransactionMetadata`, `DeleteTransactionMetadata`, regenerated in
-`Ledger.Generated.WriteSql.P`): kernel evaluation under LeanPG on a concrete scenario; finite facts, not
-general theorems.
+C15bMeta — the transaction-metadata statements (`UpdateTransactionMetadata`, `DeleteTransactionMetadata`,
+regenerated in `Ledger.Generated.WriteSql.P`).
+
+* PROVED in general: the UPDATE inside each statement's CTE, for any contents of `transactions` satisfying
+  `TxTblState` (no UPDATE trigger on the table): `umG`/`umF` — rows with `id = txid ∧ ledger = l ∧ ¬ metadata @>
+  new` get `metadata || new` and `updated_at`; `dmG`/`dmF` — rows with `id = txid ∧ ledger = l ∧ metadata -> key
+  IS NOT NULL` lose the key (metadata objects) and get `updated_at`.
+* BOUNDED (kernel evaluation on a concrete scenario, with the history triggers): the whole statements incl.
+  the `modified` flag.
 -/
 namespace Ledger.C15bMeta
 open Ledger Ledger.Sql Ledger.Generated Ledger.Generated.WriteSql Ledger.Sql.Run
 
-/-- Transaction metadata: `UpdateTransactionMetadata` merges (`modified` only when something changes),
+theorem updateTransactionMetadataAt_update_sem (n : Nat) (env : Env) (b l : String) (id : Nat) (txid : Int) (metadataJson atTs : String)
+    (mj : JV) (T : Int) (hb : b.isEmpty = false) (hj : JV.parse metadataJson = .ok mj) (hT : tsParse atTs = .ok T)
+    (trigs : List TriggerDef) (nr : Nat) (rows : List Ver) (s : St) (hs : TxTblState s b trigs nr rows)
+    (hnb : trigs.filter (fun tr => tr.timing == .before && tr.event == .update) = [])
+    (hna : trigs.filter (fun tr => tr.timing == .after && tr.event == .update) = []) :
+    ∃ rows', (((P.updateTransactionMetadataAt b l id txid metadataJson atTs).flatMap cteStmts).mapM (execStmt (n + 7) env)).exec s =
+        (.ok [txUpdResult (latestView s.w s.xid) rows (umG l txid mj) (umF mj T)], s.withTable ((txT b trigs nr).withRows rows')) ∧
+      (∀ rid, visLookup (latestView s.w s.xid) rows' rid =
+        (visLookup (latestView s.w s.xid) rows rid).map (fun v => if txG (umG l txid mj) v then txF (umF mj T) v else v)) ∧
+      TxInv (latestView s.w s.xid) rows' ∧ RidInj (latestView s.w s.xid) rows' :=
+  updateTxMetadataAt_update_bridge n env b l id txid metadataJson atTs mj T hb hj hT trigs nr rows s hs hnb hna
+
+theorem deleteTransactionMetadataAt_update_sem (n : Nat) (env : Env) (b l : String) (id : Nat) (txid : Int) (key atTs : String)
+    (T : Int) (hb : b.isEmpty = false) (hT : tsParse atTs = .ok T)
+    (trigs : List TriggerDef) (nr : Nat) (rows : List Ver) (s : St) (hs : TxTblState s b trigs nr rows)
+    (hobj : ∀ r ∈ rows, ∀ x, r.vals = txVals x → ∃ kvs, x.metadata = .obj kvs)
+    (hnb : trigs.filter (fun tr => tr.timing == .before && tr.event == .update) = [])
+    (hna : trigs.filter (fun tr => tr.timing == .after && tr.event == .update) = []) :
+    ∃ rows', (((P.deleteTransactionMetadataAt b l id txid key atTs).flatMap cteStmts).mapM (execStmt (n + 7) env)).exec s =
+        (.ok [txUpdResult (latestView s.w s.xid) rows (dmG l txid key) (dmF key T)], s.withTable ((txT b trigs nr).withRows rows')) ∧
+      (∀ rid, visLookup (latestView s.w s.xid) rows' rid =
+        (visLookup (latestView s.w s.xid) rows rid).map (fun v => if txG (dmG l txid key) v then txF (dmF key T) v else v)) ∧
+      TxInv (latestView s.w s.xid) rows' ∧ RidInj (latestView s.w s.xid) rows' :=
+  deleteTxMetadataAt_update_bridge n env b l id txid key atTs T hb hT trigs nr rows s hs hobj hnb hna
+
+/-- BOUNDED. Transaction metadata: `UpdateTransactionMetadata` merges (`modified` only when something changes),
     `DeleteTransactionMetadata` removes a key (`modified` only when the key was there). -/
 example : (let r := run w1 (on 1 (mkTx 1 10 "{\"k\":\"v\"}" ++
       P.updateTransactionMetadataAt "_default" "ledger0" 7 1 "{\"a\":\"b\"}" (tsText 40) ++
